@@ -278,7 +278,7 @@ def run(pid, tier, seed):
         for k, what in replay(pid, rc["case"]):
             camp.fail(k, what, rc["case"])
     camp.merge(core.run_shards(shard, [dict(seed=core.seed_of(seed, s, 15), n=n, real_every=real_every) for s in range(shards)]))
-    return core.finish(pid, tier, seed, camp, RULE, t0, assumptions=[
+    return core.finish(pid, tier, seed, camp, RULE, t0, replay_fn=replay, assumptions=[
         "no hidden entries, symlinks or unreadable files; gitignore patterns limited to bare names, 'dir/' and '*.ext'",
         "order of verdict lines inside a directory is not constrained",
     ])
